@@ -30,6 +30,10 @@ func newSynGrid(tw uint, m int, x0, y0 float64, corner string, nz int) *synGrid 
 // newSynGridAxes: with swapped = true the document is written in a northing/easting CRS (EPSG:3035, orderedAxes Y, X):
 // pointOfOrigin holds [y, x]; the geometry in x,y order is the same as for swapped = false.
 func newSynGridAxes(tw uint, m int, x0, y0 float64, corner string, nz int, swapped bool) *synGrid {
+	return newSynGridFull(tw, m, x0, y0, corner, nz, swapped, false)
+}
+
+func newSynGridFull(tw uint, m int, x0, y0 float64, corner string, nz int, swapped, declaredBBox bool) *synGrid {
 	g := &synGrid{TW: tw, M: m, X0: x0, Y0: y0, Corner: corner, NZ: nz}
 	span := math.Ldexp(1, m)
 	type tmJSON struct {
@@ -56,6 +60,12 @@ func newSynGridAxes(tw uint, m int, x0, y0 float64, corner string, nz int, swapp
 	doc := map[string]any{
 		"id": "Synthetic", "title": "synthetic dyadic grid", "crs": "http://www.opengis.net/def/crs/EPSG/0/28992",
 		"orderedAxes": []string{"X", "Y"}, "tileMatrices": tms,
+	}
+	if declaredBBox {
+		// a declared bounding box that is NOT the extent of the root matrix (an area-of-use box rounded outward): it must not
+		// take part in tile addressing or in deciding what lies inside the grid
+		doc["boundingBox"] = map[string]any{"lowerLeft": []float64{x0 - span/8, y0 - span/4}, "upperRight": []float64{x0 + span*1.25, y0 + span*1.125},
+			"crs": "http://www.opengis.net/def/crs/EPSG/0/28992"}
 	}
 	if swapped {
 		for i := range tms {
